@@ -1,6 +1,6 @@
 # C08 — re-signing replaces the signature; digests ignore existing signatures (end-to-end half + Coq laws)
 import concurrent.futures, json, os, shutil, zipfile
-from vlib import e2e, formats
+from vlib import e2e, formats, c03_readers as R, c03_derive as D
 
 NOT_SIGNABLE = {"mach-o-fat"}
 # formats whose signatures live in named slots (a second signature under another name is additional, not a replacement)
@@ -49,9 +49,20 @@ def run(ctx, replay=None):
             h2 = [(k, d if not ok or d in ok else "sha256") for k, d in h]
             jobs.append((fx, st, trust, hi, h2))
 
+    # generated compound files (harness-owned writer): plain, 4096-byte sectors, and inputs that already carry a signature stream whose
+    # size sits at the mini-stream cutoff — the history then replaces a stream stored in the OTHER allocation table
+    for name, vclass, blob in D.cfb_variants(ctx.tier):
+        if vclass not in ("generated", "v4", "foreign-signature", "free-sectors"):
+            continue
+        p = os.path.join(outdir, name + ".msi")
+        with open(p, "wb") as f:
+            f.write(blob)
+        for hi, h in enumerate(HISTORIES[:2] if ctx.tier != "thorough" else HISTORIES):
+            jobs.append((p, "msi", "x509", hi, list(h)))
+
     def one(j):
         fx, st, trust, hi, hist = j
-        src = kit.fixture(fx)
+        src = fx if os.path.isabs(fx) else kit.fixture(fx)
         tag = fx.replace("/", "_")
         res = {"fixture": fx, "sigtype": st, "history": hist, "rounds": []}
         probe0 = kit.issigned([src])
@@ -63,6 +74,13 @@ def run(ctx, replay=None):
                 base_payload = zip_payload(src)
             except Exception as e:
                 res["payload_reader_error"] = str(e)
+        base_view = None
+        if st == "msi":
+            # independent CFB reader (written from MS-CFB, shared with C03): streams, storages, names, order, metadata
+            base_view = R.read("msi", open(src, "rb").read(), os.path.basename(src))
+            if base_view.wf:
+                res["payload_reader_error"] = "; ".join(base_view.wf[:2])
+                base_view = None
         for ri, (key, dg) in enumerate(hist):
             out = os.path.join(outdir, "h%d.r%d.%s" % (hi, ri, tag))
             rc, txt = kit.sign(key, cur, out, digest=dg)
@@ -87,6 +105,15 @@ def run(ctx, replay=None):
                 except Exception as e:
                     rd["payload_same"] = False
                     rd["payload_err"] = str(e)
+            if base_view is not None:
+                vout = R.read("msi", open(out, "rb").read(), os.path.basename(out))
+                diffs = R.compare("msi", base_view, vout)
+                if vout.wf or vout.soft:
+                    rd["payload_same"], rd["payload_err"] = False, "output is not a well-formed compound file: " + "; ".join((vout.wf + vout.soft)[:3])
+                elif diffs:
+                    rd["payload_same"], rd["payload_err"] = False, "; ".join(diffs[:3])
+                else:
+                    rd["payload_same"] = True
             res["rounds"].append(rd)
             cur = out
         return res
@@ -118,7 +145,7 @@ def run(ctx, replay=None):
             if rd["probe_signed"] is not True:
                 ctx.violation("C08:spec:%s:probe-false-on-signed" % st, "%s: is-signed probe does not answer true for relic's output" % where, dict(ident, round=ri))
             if rd.get("payload_same") is False:
-                ctx.violation("C08:spec:%s:payload-changed" % st, "%s: archive members differ from the original's (%s)" % (where, rd.get("payload_err", "content/order")), dict(ident, round=ri))
+                ctx.violation("C08:spec:%s:payload-changed" % st, "%s: payload items differ from the original's (%s)" % (where, rd.get("payload_err", "content/order")), dict(ident, round=ri))
     cov = dict(frag)
     cov.update({"evaluations": n_eval, "distinct_nontrivial": len(distinct),
                 "rule": "every signable container fixture (unsigned, and the third-party-signed hyperv.cat, App1 appx, rocky rpm) signed 2-3 times (5 in thorough) with changing keys (RSA-2048/3072, P-256/384/521) and digests; after each round: verify under the last key, previous key alone must fail, signature count, is-signed probe true (false on unsigned inputs), zip-based payload (python zipfile) equal to the original; distinct = (type, round, key, digest)",
